@@ -787,3 +787,67 @@ pub(crate) mod verif_hooks_codec {
         .reload_tls_hosts_settings(settings)
     }
 }
+
+#[cfg(feature = "verif")]
+pub(crate) mod verif_hooks_session {
+    use super::*;
+    use crate::verif::session::Channel;
+
+    /// The part of `Core::on_new_tls_connection` after the TLS handshake
+    pub async fn run<IO>(
+        context: Arc<Context>,
+        channel: Channel,
+        protocol: tls_demultiplexer::Protocol,
+        stream: IO,
+        sni: String,
+        sni_auth_creds: Option<String>,
+    ) -> Result<(), String>
+    where
+        IO: 'static + AsyncRead + AsyncWrite + Unpin + Send + PeerAddr,
+    {
+        let client_id = log_utils::IdChain::from(log_utils::IdItem::new(
+            log_utils::CLIENT_ID_FMT,
+            context.next_client_id.fetch_add(1, Ordering::Relaxed),
+        ));
+        let core_settings = context.settings.clone();
+        let codec = |id: log_utils::IdChain<u64>, stream: IO| {
+            Core::make_tcp_http_codec(protocol, core_settings.clone(), stream, id)
+                .map_err(|e| format!("Failed to create HTTP codec: {}", e))
+        };
+        match channel {
+            Channel::Tunnel => {
+                let tunnel_id = client_id.extended(log_utils::IdItem::new(
+                    log_utils::TUNNEL_ID_FMT,
+                    context.next_tunnel_id.fetch_add(1, Ordering::Relaxed),
+                ));
+                let codec = codec(tunnel_id.clone(), stream)?;
+                Core::on_tunnel_request(context, protocol, codec, sni, sni_auth_creds, tunnel_id).await
+            }
+            Channel::Ping => {
+                let codec = codec(client_id.clone(), stream)?;
+                http_ping_handler::listen(
+                    context.shutdown.clone(),
+                    codec,
+                    context.settings.tls_handshake_timeout,
+                    client_id,
+                )
+                .await
+            }
+            Channel::Speedtest => {
+                let codec = codec(client_id.clone(), stream)?;
+                http_speedtest_handler::listen(
+                    context.shutdown.clone(),
+                    codec,
+                    context.settings.tls_handshake_timeout,
+                    client_id,
+                )
+                .await
+            }
+            Channel::ReverseProxy => {
+                let codec = codec(client_id.clone(), stream)?;
+                reverse_proxy::listen(context.clone(), codec, sni, client_id).await
+            }
+        }
+        Ok(())
+    }
+}
